@@ -18,7 +18,7 @@ import (
 // The server is a byzantine peer: corruption faults are applied to what it
 // sends (byte substitution, window overwrite, truncation + garbage, arbitrary
 // bytes after a token, arbitrary row bytes after a format, every data length,
-// hostile packet headers, random streams). The client must neither panic, nor
+// hostile packet headers, data tokens of the wrong format family, random streams). The client must neither panic, nor
 // spin, nor allocate out of proportion.
 
 type c10Plan struct {
@@ -83,15 +83,19 @@ func c10LenTypes() []peer.Entry {
 	return out
 }
 
+// c10CrossSeqs: data-token sequences sent after a format (0xD1 = TDS_ROW, 0xD7 = TDS_PARAMS), including the
+// tokens of the other format family.
+var c10CrossSeqs = [][]byte{{0xD1, 0xD1}, {0xD1, 0xD7}, {0xD7, 0xD1}, {0xD7, 0xD7}, {0xD7, 0xD7, 0xD1}, {0xD1, 0xD1, 0xD7}}
+
 func (c10) NRuns(tier string) int {
-	n := c10BuildEnum(tier).total + len(c10LenTypes())*256 + 10*2*24
+	n := c10BuildEnum(tier).total + len(c10LenTypes())*256 + 10*2*24 + len(fmtNames)*len(c10CrossSeqs)
 	if tier == "thorough" {
 		return n + 3000000
 	}
 	return n + 6000
 }
 func (c10) Rule() string {
-	return "corruption faults on server responses: (enumerated) every byte of every response of the entry set (quick: one entry per package type and data-type family; thorough: the whole 410-entry zoo) substituted by each of {0,1,2,3,4,7,8,0x7f,0x80,0xfe,0xff}; every one-byte-length data type x every data length 0..255 with random data; packet headers with every length 0..9, unknown channels and all message types; (seeded) 2- and 4-byte windows overwritten with boundary integers, truncation plus garbage, known token followed by random bytes, format followed by arbitrary row bytes, purely random streams; DebugLogPackages on in a third of the runs; non-trivial = the corrupted bytes reached a package parser (not rejected at the packet layer); distinct = distinct (kind, subject, offset, value) / wire hash"
+	return "corruption faults on server responses: (enumerated) every byte of every response of the entry set (quick: one entry per package type and data-type family; thorough: the whole 410-entry zoo) substituted by each of {0,1,2,3,4,7,8,0x7f,0x80,0xfe,0xff}; every one-byte-length data type x every data length 0..255 with random data; packet headers with every length 0..9 and all message types; every format followed by 2..3 data tokens of its own and the other family; (seeded) 2- and 4-byte windows overwritten with boundary integers, truncation plus garbage, known token followed by random bytes, format followed by arbitrary row bytes, purely random streams; DebugLogPackages on in a third of the runs; non-trivial = the corrupted bytes reached a package parser (not rejected at the packet layer); distinct = distinct (kind, subject, offset, value) / wire hash"
 }
 func (c10) Components() map[string]string {
 	return map[string]string{"tds (packet reader, Channel, PacketQueue, every package/format/value parser, String methods via debug log), asetypes.GoValue": "real (rewritten)", "transport": "stub: simrt.Conn", "server": "stub: byzantine peer (sim/peer encoders + corruption faults)", "process limits": "worker under ulimit -v, TotalAlloc measured per run"}
@@ -159,6 +163,30 @@ func (c10) Gen(r *Rand, idx int, tier string) interface{} {
 		p.Kind, p.Subject = "header", fmt.Sprintf("length=%d", L)
 		p.Desc = fmt.Sprintf("packet header type=%d status=%d length=%d followed by 40 random bytes", typ, eom, L)
 		p.Wire = hex.EncodeToString(w)
+		return p
+	}
+	i -= 10 * 2 * 24
+	if i < len(fmtNames)*len(c10CrossSeqs) {
+		// every format followed by data tokens of its own and of the other family, each with the bytes of a
+		// valid data package of that format (without its token)
+		f := zooIndex[fmtNames[i/len(c10CrossSeqs)]]
+		seq := c10CrossSeqs[i%len(c10CrossSeqs)]
+		var data []byte
+		for _, z := range zooList {
+			if z.Needs == f.Name && (z.Kind == "ROW" || z.Kind == "PARAMS") {
+				data = z.Bytes[1:]
+				break
+			}
+		}
+		body := append([]byte{}, f.Bytes...)
+		for _, tok := range seq {
+			body = append(body, tok)
+			body = append(body, data...)
+		}
+		body = append(body, peer.Done(0, 0, 0)...)
+		p.Kind, p.Subject = "fmt-cross", strings.SplitN(f.Name, "/", 2)[0]
+		p.Desc = fmt.Sprintf("%s followed by data tokens %x (each with the bytes of a valid data package)", f.Name, seq)
+		p.Wire = hex.EncodeToString(c10Wrap(body))
 		return p
 	}
 	// seeded part
